@@ -135,3 +135,21 @@ Definition shipped_ok (files : list units_file) : bool :=
 
 Example si_forms_shipped : shipped_ok [units_toml] = true /\ shipped_ok [units_toml; units_spanish] = true.
 Proof. split; vm_compute; reflexivity. Qed.
+
+(* a layer with one extend entry on top of [w_good]: the hypotheses of C16_precedence_extend are satisfiable *)
+Definition s_gramo : str := [103; 114; 97; 109; 111].
+Definition e_gramo : ext_entry :=
+  {| xe_ratio := None; xe_difference := None; xe_names := Some [s_gramo]; xe_symbols := None; xe_aliases := None |}.
+Definition w_ext : list units_file :=
+  w_good ++ [{| uf_default_system := None; uf_si := None; uf_fractions := None;
+                uf_extend := Some {| ex_prec := Before; ex_units := [(s_g, e_gramo)] |}; uf_quantity := [] |}].
+
+Example single_extend_example :
+  is_ok (build cfg_new w_ext) = true /\
+  extend_layers w_ext = [{| ex_prec := Before; ex_units := [(s_g, e_gramo)] |}] /\
+  (exists d, nth_error (declared w_ext) 4 = Some d /\ In s_g (all_keys (unit_of d)) /\
+             names (layered_unit (unit_of d) e_gramo Before) = [s_gramo; s_gram]).
+Proof.
+  split; [vm_compute; reflexivity|]. split; [reflexivity|].
+  eexists. split; [reflexivity|]. split; [cbn; tauto | reflexivity].
+Qed.
